@@ -23,10 +23,15 @@ func Listen(fn func(os.Signal)) {
 	wg.Add(1)
 	go func() {
 		defer wg.Done()
-		for {
-			sigchan := make(chan os.Signal, 1)
-			signal.Notify(sigchan, os.Interrupt, syscall.SIGTERM, syscall.SIGHUP)
 
+		// One channel, registered once, with room for a burst of
+		// signals: signal.Notify drops what does not fit into the
+		// channel, and a channel which is created anew after every
+		// SIGHUP misses a SIGTERM which arrives in between.
+		sigchan := make(chan os.Signal, 16)
+		signal.Notify(sigchan, os.Interrupt, syscall.SIGTERM, syscall.SIGHUP)
+
+		for {
 			var sig os.Signal
 			select {
 			case sig = <-sigchan:
